@@ -32,6 +32,15 @@ func (s *SafeMap[K, V]) Delete(k K) {
 	delete(s.data, k)
 }
 
+// DeleteIf deletes the entry of k if cond holds for its value, as one step.
+func (s *SafeMap[K, V]) DeleteIf(k K, cond func(V) bool) {
+	s.mu.Lock()
+	defer s.mu.Unlock()
+	if v, ok := s.data[k]; ok && cond(v) {
+		delete(s.data, k)
+	}
+}
+
 func (s *SafeMap[K, V]) Len() int {
 	s.mu.RLock()
 	defer s.mu.RUnlock()
